@@ -245,7 +245,9 @@ macro_rules! uni_npo_prover {
     (no, $p:ident, $cfg:ident, $d:expr, $p2cfg:expr) => {};
     // quintic circuit field with the base-field (D=1) permutation table
     (q5, $p:ident, $cfg:ident, $d:expr, $p2cfg:expr) => {
-        if $cfg.npo.poseidon {
+        if $cfg.npo.poseidon && $cfg.poseidon1 {
+            $p.register_poseidon1_table::<5>(p3_circuit::ops::Poseidon1Config::KOALA_BEAR_D1_W16);
+        } else if $cfg.npo.poseidon {
             $p.register_poseidon2_table::<5>($p2cfg);
         }
         if $cfg.npo.recompose {
@@ -297,7 +299,10 @@ macro_rules! uni_npo_keygen {
     };
     (no, $cfg:ident, $npo_prep:ident, $air_builders:ident, $sc:ty, $d:expr) => {};
     (q5, $cfg:ident, $npo_prep:ident, $air_builders:ident, $sc:ty, $d:expr) => {
-        if $cfg.npo.poseidon {
+        if $cfg.npo.poseidon && $cfg.poseidon1 {
+            $npo_prep.push(Box::new(p3_circuit_prover::Poseidon1Preprocessor));
+            $air_builders.extend(p3_circuit_prover::batch_stark_prover::poseidon1_air_builders_d5::<$sc>());
+        } else if $cfg.npo.poseidon {
             $npo_prep.push(Box::new(p3_circuit_prover::Poseidon2Preprocessor));
             $air_builders.extend(p3_circuit_prover::batch_stark_prover::poseidon2_air_builders_d5::<$sc>());
         }
